@@ -189,6 +189,57 @@ def directed_known(rng=None):
     return [(e[0], e[1], e[2] if len(e) > 2 else None) for e in out]
 
 
+def directed_fixed():
+    """Hand-built programs that failed before a `fix:` commit of /repo and run right since (replays of the FIXED entries
+    of relational.json and of fixes in the relational core that had no entry).  Nothing excuses them: a recurrence is a
+    VIOLATION with this input.  Returns [(label, Program)]; the caller supplies instances."""
+    n = P.nid
+    S = P.Step
+
+    def col(c, q=None):
+        return "ECol %s %d%%N" % ("None" if q is None else "(Some %d%%N)" % n(q), n(c))
+
+    def sel(names):
+        return S("select", "select {%s}" % ", ".join(names), "TSelect [%s]" % "; ".join("(None, %s)" % col(c) for c in names), final=True)
+    out = []
+    # F29 (456bdcd): sort | select dropping the key | take | group: panicked `name of this column has not been to be set`
+    out.append(("F29/456bdcd", P.Program([
+        S("sort", "sort {id}", "TSort [(false, %s)]" % col("id"), keys=[(False, ("col", None, "id"))]),
+        S("select", "select {a, b}", "TSelect [(None, %s); (None, %s)]" % (col("a"), col("b"))),
+        S("take", "take 2", "TTake None (Some (2))", rng=(None, 2)),
+        S("group_agg", "group {a} (aggregate {n9 = count b})", "TGroupAgg [%d%%N] [(Some %d%%N, ACount, %s)]" % (n("a"), n("n9"), col("b")), by=["a"]),
+        sel(["a", "n9"])], False, ["a", "n9"])))
+    # F29 / former F24 replay (c83467e): the final ORDER BY was re-targeted to a dead alias of the sort column
+    out.append(("F29/c83467e", P.Program([
+        S("sort", "sort {-g, id}", "TSort [(true, %s); (false, %s)]" % (col("g"), col("id")), keys=[(True, ("col", None, "g")), (False, ("col", None, "id"))]),
+        S("join", "join u (t.id == u.id)", "TJoin Inner %d%%N U_COLS U_TABLE (EBin Eq (%s) (%s))" % (n("u"), col("id", "t"), col("id", "u")), side="Inner", one_to_one=True),
+        S("take", "take 1", "TTake None (Some (1))", rng=(None, 1)),
+        S("select", "select {t.id, t.a, t.g, x910 = t.id}",
+          "TSelect [(None, %s); (None, %s); (None, %s); (Some %d%%N, %s)]" % (col("id", "t"), col("a", "t"), col("g", "t"), n("x910"), col("id", "t"))),
+        S("select", "select {id, g, x911 = a}", "TSelect [(None, %s); (None, %s); (Some %d%%N, %s)]" % (col("id"), col("g"), n("x911"), col("a")), final=True)],
+        True, ["id", "g", "x911"], {"key_pos": None})))
+    # 8d54bf7: an aggregate ends the sort (its key used to leak into the aggregating SELECT as a bare column)
+    out.append(("8d54bf7", P.Program([
+        S("sort", "sort {b, id}", "TSort [(false, %s); (false, %s)]" % (col("b"), col("id")), keys=[(False, ("col", None, "b")), (False, ("col", None, "id"))]),
+        S("aggregate", "aggregate {x912 = sum c}", "TAggregate [(Some %d%%N, ASum, %s)]" % (n("x912"), col("c"))),
+        S("take", "take 1", "TTake None (Some (1))", rng=(None, 1)),
+        sel(["x912"])], False, ["x912"])))
+    # bc8ad7d: `group {a} (take 1)` is a DISTINCT only if nothing behind it uses another column
+    out.append(("bc8ad7d", P.Program([
+        S("select", "select {a, b}", "TSelect [(None, %s); (None, %s)]" % (col("a"), col("b"))),
+        S("group_take1", "group {a} (take 1)", "TGroupTake [%d%%N] [] None (Some (1))" % n("a"), by=["a"], flat="PGroup true [PTake]"),
+        S("sort", "sort {b}", "TSort [(false, %s)]" % col("b"), keys=[(False, ("col", None, "b"))]),
+        sel(["a"])], False, ["a"])))
+    # 3561315: DISTINCT ON and DISTINCT never share a SELECT (judged on the PQ of sql.postgres by the segment validator)
+    out.append(("3561315", P.Program([
+        S("select", "select {id, a, b}", "TSelect [(None, %s); (None, %s); (None, %s)]" % (col("id"), col("a"), col("b"))),
+        S("group_take", "group {a} (sort {b, id} | take 1)", "TGroupTake [%d%%N] [(false, %s); (false, %s)] None (Some (1))" % (n("a"), col("b"), col("id")),
+          by=["a"], keys=[(False, ("col", None, "b")), (False, ("col", None, "id"))]),
+        S("select", "select {a, b}", "TSelect [(None, %s); (None, %s)]" % (col("a"), col("b"))),
+        S("distinct", "group {a, b} (take 1)", "TDistinct")], False, ["a", "b"])))
+    return out
+
+
 def append_pruned(sql):
     """the top operand of a UNION ALL has an explicit column list while the bottom operand is `SELECT *`"""
     for m in re.finditer(r"UNION ALL SELECT \* FROM", sql):
